@@ -81,6 +81,9 @@ type Cluster struct {
 	PeersView func(n *Node) []PeerRow
 	// LocalView overrides the system.local row of node n
 	LocalView func(n *Node) *PeerRow
+	// BeforePeersReply, if set, runs after the rows of a system.peers answer were determined and before the
+	// answer is written (it may block: the answer then describes the cluster as it was when the query arrived)
+	beforePeersReply atomic.Value // of func(n *Node)
 	// FaultsFor supplies the driver-side fault plan for the k-th connection to a node
 	FaultsFor func(n *Node, k int) memnet.Faults
 	// ProtoMax: highest protocol version the cluster speaks (0 = any)
@@ -657,6 +660,9 @@ func (n *Node) systemQuery(sc *ServerConn, req *Req) bool {
 			}
 			c.mu.Unlock()
 		}
+		if f, _ := c.beforePeersReply.Load().(func(n *Node)); f != nil {
+			f(n)
+		}
 		cols := []cqlref.Column{col("peers", "peer", T(cqlref.TInet)), col("peers", "host_id", T(cqlref.TUUID)), col("peers", "data_center", T(cqlref.TText)), col("peers", "rack", T(cqlref.TText)),
 			col("peers", "release_version", T(cqlref.TText)), col("peers", "rpc_address", T(cqlref.TInet)), col("peers", "tokens", &cqlref.Type{ID: cqlref.TSet, Elem: T(cqlref.TText)}), col("peers", "schema_version", T(cqlref.TUUID))}
 		var out [][][]byte
@@ -740,6 +746,22 @@ func (c *Cluster) SetAddr(n *Node, ip net.IP) {
 	for _, sc := range n.Conns() {
 		sc.Close()
 	}
+}
+
+// SetBeforePeersReply installs (or, with nil, removes) the BeforePeersReply callback.
+func (c *Cluster) SetBeforePeersReply(f func(n *Node)) {
+	if f == nil {
+		f = func(*Node) {}
+	}
+	c.beforePeersReply.Store(f)
+}
+
+// SetPeerIP changes only n's node-to-node (peer / broadcast) address; the client-facing address and the
+// connections stay as they are.
+func (c *Cluster) SetPeerIP(n *Node, ip net.IP) {
+	c.mu.Lock()
+	n.PeerIP = ip
+	c.mu.Unlock()
 }
 
 // SetHostID gives n a new host id (a replaced node on the same address); connections are closed.
